@@ -165,4 +165,4 @@ CLAIMED["C12"] = {
 PENDING = "check not yet built in this session (machinery under construction; see DESIGN.md §9 build order) - not claimed until its premises run, pass on the repaired tree and fire on seeded breaks"
 NOT_APPLICABLE = {("C%02d" % i): PENDING for i in range(1, 21)}
 
-FIX_COMMITS = []
+FIX_COMMITS = ['76199b7', 'bdc8bf5', '01a738e', '1143c08', 'a72d5fc', '80177a1', '5a62a4f', 'c58031f', 'b95f9f7', 'b8bc0d1', '145526c', 'a922908', '3791ee6', '809e924', 'e648960', '28106a7', 'aaf3813']
